@@ -195,7 +195,7 @@ def _check_case(case):
     add_value_calls(V1, "defaults", {}, MG.IFACES)
     if ov1:
         for k, v in ov1.items():
-            name = P.par_ext[k] if rng.random() < 0.5 else P.par_names[k]
+            name = P.par_ext[k]  # first round: the external name when there is one, second round: the variable name
             calls.append({"i": "gset", "name": name, "v": MG.hexf(v)})
             meta.append({"kind": "set", "expect": 1, "name": name})
         add_value_calls(V2, "override1", ov1, MG.IFACES)
@@ -309,7 +309,13 @@ def _check_case(case):
         case["failing_call"] = fcall
         MG.note_failure()
         return Result(False, key=key, msg=msg + "\n--- program ---\n" + P.text)
-    nontrivial = (isdata and len(P.ys_lit) >= 2 and P.nin == 1) or (not isdata and P.nin >= 2 and bool(ov1))
+    effective = False
+    if ov1 and not isdata and V2:
+        r0 = decl.value("generic", V2[0], {})[0]
+        effective = any(decl.value("generic", V2[0], {i: v})[0] != r0 for i, v in ov1.items())
+        if effective:
+            classes.append("override_effective")
+    nontrivial = (isdata and len(P.ys_lit) >= 2 and P.nin == 1) or (not isdata and P.nin >= 2 and effective)
     return Result(True, nontrivial=nontrivial, classes=classes, errs=errs,
                   sample={"law": P.law, "mfront": P.text, "calls": nval})
 
